@@ -485,7 +485,21 @@ def fresh_ids(rep, prog):
                 if s["ref"]["did"] in st_ and len(id_uses) == 1 and loop_of_decl is loop_of_use:
                     s = strip(st_[s["ref"]["did"]])
             if s.get("k") == "UnaryOperator" and s.get("op") == "++" and s.get("postfix") and "max_cell_id_" in render(s["c"][0]):
-                rep.ok("C08.fresh-ids", prog, fn, n, "%s" % short(n, 70))
+                ctr = strip(s["c"][0])
+                byval = None
+                if ctr.get("k") == "DeclRefExpr" and (ctr.get("ref") or {}).get("dk") == "ParmVar":
+                    pt = [p_.get("t", "") for p_ in fn.get("params", []) if p_.get("did") == ctr["ref"].get("did")]
+                    if pt and not (pt[0].rstrip().endswith("&") and not pt[0].startswith("const ")):
+                        byval = pt[0]
+                elif ctr.get("k") == "DeclRefExpr" and (ctr.get("ref") or {}).get("dk") == "Var":
+                    vt = [v_.get("t", "") for v_ in walk(fn["body"]) if v_.get("k") == "Var" and v_.get("did") == ctr["ref"].get("did")]
+                    if vt and not vt[0].rstrip().endswith("&"):
+                        byval = vt[0]
+                if byval is not None:
+                    rep.violation("C08.fresh-ids", prog, fn, n, "id drawn from a copy of the counter",
+                                  "%s: '%s' is a %s taken by value in %s, so the increment is lost when the function returns: the caller's counter is not advanced and the next call hands out the same persistent ids again (two cells with one id; the same-cell filter of the contact models then drops every pair between them)" % (short(n, 70), render(ctr), byval, fn["qn"]))
+                else:
+                    rep.ok("C08.fresh-ids", prog, fn, n, "%s" % short(n, 70))
             else:
                 rep.violation("C08.fresh-ids", prog, fn, n, "cell id not taken from the counter", "%s: a persistent cell id must be the post-incremented max_cell_id_ counter (unique, never reused)" % short(n, 80))
         for n in walk(fn["body"]):
